@@ -18,7 +18,7 @@ def mut(id, prop, file, old, new, note="", only=None, suite=True):
 
 # ---- reverts of the fixes (the defect must be re-detected) ----
 mut("rev-d8-server-wedge", "C11", "server.go", "\t\t\tcase <-handler.ctx.Done():\n", "\t\t\tcase <-make(chan struct{}):\n", "forwarding select no longer observes the stream context")
-mut("rev-d9-client-wedge", "C11", "internal/client/multiplexer.go", "\tcase <-h.gone:\n", "\tcase <-make(chan struct{}):\n", "dispatch ignores the gone signal")
+mut("rev-d9-client-wedge", "C11", "internal/client/multiplexer.go", "\tcase h.ch <- rpc:\n\tcase <-h.gone:\n", "\tcase h.ch <- rpc:\n\tcase <-make(chan struct{}):\n", "dispatch ignores the gone signal")
 mut("rev-d1-eof-canceled", "C02", "internal/client/stream.go", "\t\tif done, err := cs.readErrorIfDone(); done {\n\t\t\treturn err\n\t\t}\n\t\treturn toStatusError(cs.ctx.Err())", "\t\treturn toStatusError(cs.ctx.Err())", "ctx branch does not re-check the terminal state")
 mut("rev-d3-reset-eof", "C03", "internal/client/stream.go", "\tif rpc.GetReset_() != nil {\n\t\t// The peer has torn the stream down; that is never a clean end.\n\t\treturn true, status.Error(codes.Unavailable, \"stream reset by peer\")\n\t}\n", "", "reset read as trailer")
 mut("rev-d4-reset-overtake", "C03", "server.go", "\tselect {\n\tcase h.writeChan <- reset:\n\t\treturn nil\n\tcase <-h.ctx.Done():\n\t\treturn context.Cause(h.ctx)\n\t}\n", "\treturn h.rw.Write(h.ctx, reset)\n", "reset written directly")
